@@ -142,9 +142,11 @@ def run(ctx):
             r3.ok("%s: all 8 condition values map to exactly the awaited events" % f.qname, "exact folding")
     # (b) btcp: flags or-ed under the matching condition bit only
     bt = [t for t in tables if t.proto == "btcp"][0]
+    nmask = 0
     for g in P.fns_in(bt.slots["update"].file.split("/")[-1]):
-        if g.name not in ("conn_update", "server_update"):
-            continue
+        if not any(n["k"] == "bin" and n["op"] == "|=" and C.const_of(g, n["r"]) in (EPOLLIN, EPOLLOUT) for n in g.nodes.values()):
+            continue        # by role: the functions that build an epoll event mask bit by bit
+        nmask += 1
         r3.instance(g.qname)
         bad = []
         nor = [0]
@@ -181,9 +183,14 @@ def run(ctx):
             r3.violation("%s:interest" % g.qname, "epoll event 0x%x is requested under condition bit %s" % (bad[0][1], bad[0][2]), loc=g.loc(bad[0][0]))
         else:
             r3.ok("%s: EPOLLIN only under RECEIVABLE/ACCEPTABLE, EPOLLOUT only under SENDABLE" % g.qname, "path exploration")
+    if nmask < 2:
+        raise Broken("C16.R3: %d event-mask builders in the btcp transport (connection and server expected)" % nmask)
     # (c) btls ready with nothing awaited: no bell, nothing asked of the sub-socket
     blt = [t for t in tables if t.proto == "btls"][0]
-    cu = [g for g in P.fns_in(blt.slots["update"].file.split("/")[-1]) if g.name == "conn_update"][0]
+    cu = TP.conn_update_fn(P, blt)
+    if len(cu) != 1:
+        raise Broken("C16.R3: connection update helper of btls not found")
+    cu = cu[0]
     r3.instance("%s: idle" % cu.qname)
     bad_idle = []
     nidle = [0]
@@ -230,6 +237,29 @@ def run(ctx):
                      "while the application waits for nothing" % bad_idle[0], loc=cu.file)
     else:
         r3.ok("%s: ready with nothing awaited neither rings nor asks the sub-socket for anything" % cu.qname, "path exploration")
+
+    # (c2) the same function folded exactly over its 48 inputs: the sub-socket is never asked for more than the
+    #      application awaits or OpenSSL wants, and the bell rings only for something awaited
+    from .. import btlsfold as BF
+    en = [e for e in blt.unit.enums if e["name"] == "conn_state"][0]
+    ready = [c["value"] for c in en["constants"] if c["name"] == "conn_state_ready"]
+    try:
+        rows = BF.table(P, cu, ready[0])
+    except (BF.FoldError, IndexError) as e:
+        raise Broken("C16.R3: %s" % e)
+    r3.instance("%s: ready table (%d rows)" % (cu.qname, len(rows)))
+    badt = []
+    for r in rows:
+        if r["bell"] and not r["cond"]:
+            badt.append((r, "the bell is rung although nothing is awaited"))
+        elif not r["bell"] and r["sub_stored"]:
+            extra = r["sub"] & ~(r["cond"] | (r["ssl_wants"] if r["ssl_condition"] & r["cond"] else 0))
+            if extra:
+                badt.append((r, "the sub-socket is asked for %s, which neither the application awaits nor OpenSSL's pending operation wants" % BF.name(extra)))
+    if badt:
+        r3.violation("%s:ready-table" % cu.qname, "%s [%s]" % (badt[0][1], BF.describe(badt[0][0])), loc=cu.file)
+    else:
+        r3.ok("%s: in all %d rows the interest handed down is within what is awaited or what OpenSSL wants" % (cu.qname, len(rows)), "exact folding")
 
     # (d) the awaited condition belongs to the application: a transport writes the condition of its sub-sockets only,
     #     never that of the socket it was called on (a bit or-ed in there would stick after its reason is gone)
